@@ -406,6 +406,50 @@ pub fn router_outcome(c: &RouterCase) -> Outcome {
                     }
                 }
             }
+            // ---- completeness: everything a still-connected peer wrote comes out of recv
+            for p in &peers {
+                if let PeerRt::Raw(l) = p {
+                    l.to_lib.deliver_all();
+                }
+            }
+            let mut tail_ok = true;
+            for _ in 0..400 {
+                let r = sim.recv(router);
+                match sim.run(r).await {
+                    Ok(Some(Out::Recv(Ok(m)))) => {
+                        let tagf = m.iter().find(|fr| fr.starts_with(b"from-"));
+                        let j = tagf.and_then(|t| std::str::from_utf8(t).ok()).and_then(|t| t.split('-').nth(1)).and_then(|x| x.parse::<usize>().ok()).filter(|j| *j < peers.len());
+                        match j {
+                            Some(j) => {
+                                if m[0] != ids[j] || sent[j].get(next[j]).map(|w| w[..] != m[1..]).unwrap_or(true) {
+                                    fail!(f, "C09/inbound/frames-modified", "final drain: connection {} message #{} returned as {:?} under label {}", j, next[j], m[1..].iter().map(|x| x.len()).collect::<Vec<_>>(), refcodec::brief(&m[0]));
+                                }
+                                next[j] += 1;
+                            }
+                            None => fail!(f, "C09/inbound/unattributable-message", "final drain: recv returned {:?}", m.iter().map(|x| x.len()).collect::<Vec<_>>()),
+                        }
+                    }
+                    Ok(Some(Out::Recv(Err(_)))) => {}
+                    Ok(None) => {
+                        sim.cancel(r);
+                        break;
+                    }
+                    _ => {
+                        tail_ok = false;
+                        break;
+                    }
+                }
+            }
+            if tail_ok {
+                for j in 0..peers.len() {
+                    if gone[j] || matches!(peers[j], PeerRt::Lib { .. }) {
+                        continue;
+                    }
+                    if next[j] < sent[j].len() {
+                        fail!(f, "C09/inbound/message-lost", "connection {} (identity {}) wrote {} messages, recv returned {} of them although the peer is still connected", j, refcodec::brief(&ids[j]), sent[j].len(), next[j]);
+                    }
+                }
+            }
             (f, rejoins)
         })
     });
